@@ -147,7 +147,7 @@ def main(tier):
                 key = 'hyperedge:junction-placed-on-terminal-pin:degenerate-route'
             elif (sc['opts'] & 4) and t in ('connector-attached-to-deleted-junction', 'not-connected', 'not-a-tree', 'junction-is-a-leaf', 'terminals-changed', 'reported-new-object-not-live', 'route-does-not-join-its-attachments', 'connector-end-unattached', 'terminal-used-twice'):
                 key = 'hyperedge:improver-adding-deleting-junctions:tree-broken'
-            if key == 'hyperedge:route-does-not-join-its-attachments' and sc['follow'] == 1:
+            if key == 'hyperedge:route-does-not-join-its-attachments' and sc['follow'] in (1, 4):      # both follow-ups move a terminal's shape
                 key = 'hyperedge:after-terminal-shape-move:route-does-not-reach-pin'
             if key == 'hyperedge:route-does-not-join-its-attachments' and sc['follow'] == 3:
                 key = 'hyperedge:after-shape-and-junction-move:route-does-not-reach-pin'
